@@ -112,6 +112,8 @@ func sigBytes(tok string, msg []byte) []byte {
 	switch kind {
 	case "ok":
 		return signer().Sign(msg)
+	case "ok2": // a second, different valid signature of the same message by the same key (other nonce)
+		return signOtherNonce(signer(), msg)
 	case "mal": // (r, n-s): verifies for the same key
 		s := signer().Sign(msg)
 		n := elliptic.P256().Params().N
@@ -136,10 +138,44 @@ func sigBytes(tok string, msg []byte) []byte {
 	panic("bad signature token " + tok)
 }
 
+// signOtherNonce: ECDSA over secp256r1/SHA-256 with a nonce derived from (key, message) in another way than
+// RFC 6979 does, so that the result differs from Sign(msg) and from its (r, n-s) twin but is reproducible.
+func signOtherNonce(k *keys.PrivateKey, msg []byte) []byte {
+	curve := elliptic.P256()
+	n := curve.Params().N
+	h := new(big.Int).SetBytes(hash.Sha256(msg).BytesBE())
+	d := new(big.Int).SetBytes(k.Bytes())
+	for ctr := 0; ; ctr++ {
+		seed := sha256.Sum256(append(append([]byte(fmt.Sprintf("other-nonce|%d|", ctr)), k.Bytes()...), msg...))
+		kk := new(big.Int).Mod(new(big.Int).SetBytes(seed[:]), n)
+		if kk.Sign() == 0 {
+			continue
+		}
+		x, _ := curve.ScalarBaseMult(kk.Bytes())
+		r := new(big.Int).Mod(x, n)
+		sv := new(big.Int).Mul(r, d)
+		sv.Add(sv, h)
+		sv.Mul(sv, new(big.Int).ModInverse(kk, n))
+		sv.Mod(sv, n)
+		if r.Sign() == 0 || sv.Sign() == 0 {
+			continue
+		}
+		out := r.FillBytes(make([]byte, 32))
+		out = append(out, sv.FillBytes(make([]byte, 32))...)
+		if std := k.Sign(msg); bytes.Equal(std[:32], out[:32]) {
+			continue // same nonce as the standard signature: take the next one
+		}
+		return out
+	}
+}
+
+// verifying: the token kinds that are valid signatures of the op's message by the named key.
+func verifying(kind string) bool { return kind == "ok" || kind == "mal" || kind == "ok2" }
+
 // tokClaims: what the token says about itself (the model's oracle): verifies for pub or for nobody.
 func tokClaims(tok string, pub []byte) bool {
 	kind, arg, _ := strings.Cut(tok, ".")
-	return (kind == "ok" || kind == "mal") && arg == hex.EncodeToString(pub)
+	return verifying(kind) && arg == hex.EncodeToString(pub)
 }
 
 // realVerify is what crypto.VerifyWithECDsa(msg, pub, sig, Secp256r1Sha256) computes for a decodable key.
@@ -941,7 +977,19 @@ func (g *gen) opAdd() string {
 			vec = g.rng.IntN(4)
 		}
 	}
-	return fmt.Sprintf("op %s add %s %d %s", g.sig(), hx.Hex(c), vec, listOrDash(g.batch()))
+	ks := g.batch()
+	// a node submitted again: the same key a second time in this vector, or a key of another vector of the container
+	if pend := g.w.pend[hx.Hex(c)]; len(pend) > 0 && g.rng.IntN(6) == 0 {
+		from := vec
+		if nv > 0 && g.rng.IntN(3) == 0 {
+			from = g.rng.IntN(nv)
+		}
+		if old := pend[from]; len(old) > 0 {
+			ks = append(ks, old[g.rng.IntN(len(old))])
+			g.rng.Shuffle(len(ks), func(a, b int) { ks[a], ks[b] = ks[b], ks[a] })
+		}
+	}
+	return fmt.Sprintf("op %s add %s %d %s", g.sig(), hx.Hex(c), vec, listOrDash(ks))
 }
 
 func listOrDash(ks [][]byte) string {
@@ -1088,6 +1136,12 @@ func (g *gen) pickMembers(members [][]byte, n int) [][]byte {
 	return out
 }
 
+// retok: the token of the same signer with another kind.
+func retok(kind, t string) string {
+	_, arg, _ := strings.Cut(t, ".")
+	return kind + "." + arg
+}
+
 func tok(kind string, pub []byte) string { return kind + "." + hex.EncodeToString(pub) }
 
 func (g *gen) junk() string {
@@ -1109,7 +1163,8 @@ func (g *gen) sigMatrix(c []byte) (string, string) {
 	reps := g.w.reps[cs]
 	comm := g.w.comm[cs]
 	defect := hx.Pick(g.rng, []string{"honest", "honest", "honest", "honest-junk", "short", "dup", "maldup", "nonmember", "wrongmsg",
-		"missing-vector", "extra-vector", "null-row", "null-matrix", "empty-matrix", "badlen", "surplus", "all-junk", "other-vector"})
+		"missing-vector", "extra-vector", "null-row", "null-matrix", "empty-matrix", "badlen", "surplus", "all-junk", "other-vector",
+		"dupkey", "dupkey"})
 	if len(reps) == 0 && g.rng.IntN(2) == 0 {
 		return hx.Pick(g.rng, []string{"null", "empty", "-", "rnd.1"}), "vacuous"
 	}
@@ -1162,11 +1217,20 @@ func (g *gen) sigMatrix(c []byte) (string, string) {
 						toks[j] = toks[0]
 					}
 				}
+			case "dupkey": // a key listed at two positions of the vector is still one member
+				if k := repeatedKey(members); k != nil {
+					toks = g.repeatedKeyRow(members, k, need)
+				} else if len(toks) > 0 && strings.HasPrefix(toks[0], "ok.") { // no repeated key here: one member's signatures in the three forms
+					first := toks[0]
+					for j := range toks {
+						toks[j] = retok(hx.Pick(g.rng, []string{"ok", "ok2", "mal"}), first)
+					}
+				}
 			case "maldup": // one member's signature and its (r, n-s) twin
 				if len(toks) > 1 && strings.HasPrefix(toks[0], "ok.") {
-					toks[1] = "mal" + toks[0][2:]
+					toks[1] = retok("mal", toks[0])
 				} else if len(toks) == 1 && g.rng.IntN(2) == 0 && strings.HasPrefix(toks[0], "ok.") {
-					toks[0] = "mal" + toks[0][2:]
+					toks[0] = retok("mal", toks[0])
 				}
 			case "nonmember":
 				if len(toks) > 0 {
@@ -1184,13 +1248,13 @@ func (g *gen) sigMatrix(c []byte) (string, string) {
 			case "wrongmsg":
 				if len(toks) > 0 {
 					if j := g.rng.IntN(len(toks)); strings.HasPrefix(toks[j], "ok.") {
-						toks[j] = "wm" + toks[j][2:]
+						toks[j] = retok("wm", toks[j])
 					}
 				}
 			case "badlen":
 				if len(toks) > 0 {
 					if j := g.rng.IntN(len(toks)); strings.HasPrefix(toks[j], "ok.") {
-						toks[j] = hx.Pick(g.rng, []string{"sh", "lg"}) + toks[j][2:]
+						toks[j] = retok(hx.Pick(g.rng, []string{"sh", "lg"}), toks[j])
 					}
 				}
 			case "surplus":
@@ -1204,7 +1268,7 @@ func (g *gen) sigMatrix(c []byte) (string, string) {
 					}
 				}
 				if g.rng.IntN(2) == 0 && len(toks) > 0 && strings.HasPrefix(toks[0], "ok.") { // the missing one arrives last, after repeats
-					toks = append([]string{toks[0], "mal" + toks[0][2:]}, toks...)
+					toks = append([]string{toks[0], retok("mal", toks[0])}, toks...)
 				}
 			case "all-junk":
 				for j := range toks {
@@ -1241,6 +1305,46 @@ func (g *gen) sigMatrix(c []byte) (string, string) {
 	return strings.Join(rows, "/"), defect
 }
 
+// repeatedKey: a key (one we can sign for) that the vector lists at two or more positions.
+func repeatedKey(members [][]byte) []byte {
+	seen := map[string]bool{}
+	for _, m := range members {
+		if seen[string(m)] && privOf(hex.EncodeToString(m)) != nil {
+			return m
+		}
+		seen[string(m)] = true
+	}
+	return nil
+}
+
+// repeatedKeyRow: `need` signatures for a vector that lists key k twice. Three of four rows hold two signatures of k
+// (the same twice, a signature and its (r, n-s) twin, two signatures with different nonces) plus need-2 other members:
+// need signatures, need-1 distinct members. The fourth is the legal one: k once plus need-1 other members.
+func (g *gen) repeatedKeyRow(members [][]byte, k []byte, need int) []string {
+	var others []string
+	seen := map[string]bool{string(k): true}
+	for _, m := range members {
+		if !seen[string(m)] && privOf(hex.EncodeToString(m)) != nil {
+			seen[string(m)] = true
+			others = append(others, tok("ok", m))
+		}
+	}
+	g.rng.Shuffle(len(others), func(a, b int) { others[a], others[b] = others[b], others[a] })
+	second := hx.Pick(g.rng, []string{"ok", "mal", "ok2", ""})
+	toks := []string{tok(hx.Pick(g.rng, []string{"ok", "ok", "ok2", "mal"}), k)}
+	n := need - 2
+	if second == "" {
+		n = need - 1
+	} else {
+		toks = append(toks, tok(second, k))
+	}
+	for i := 0; i < n && i < len(others); i++ {
+		toks = append(toks, others[i])
+	}
+	g.rng.Shuffle(len(toks), func(a, b int) { toks[a], toks[b] = toks[b], toks[a] })
+	return toks
+}
+
 // scanCost: how many roster entries the contract walks through for this row (upper estimate).
 func scanCost(toks []string, members [][]byte) int {
 	counted := map[string]bool{}
@@ -1248,7 +1352,7 @@ func scanCost(toks []string, members [][]byte) int {
 	for _, t := range toks {
 		kind, arg, _ := strings.Cut(t, ".")
 		pos := -1
-		if (kind == "ok" || kind == "mal") && !counted[arg] {
+		if verifying(kind) && !counted[arg] {
 			for i, m := range members {
 				if hex.EncodeToString(m) == arg {
 					pos = i
@@ -1348,6 +1452,50 @@ func (g *gen) rosterScript(c []byte, sizes []int, emit func(string)) {
 			n -= b
 		}
 	}
+}
+
+// repeatedKeyScript: a committed roster in which node A was submitted again in a second batch of vector 0 and is also
+// a member of vector 1, then the signature sets that tell "REP signatures" from "REP distinct member keys":
+// vector 0 = [A, B, A, C], vector 1 = [D, A].
+func (g *gen) repeatedKeyScript(c []byte, emit func(string)) {
+	cs := hx.Hex(c)
+	k := g.fresh(4)
+	a, b, cc, d := k[0], k[1], k[2], k[3]
+	emit(fmt.Sprintf("op alpha add %s 0 %s", cs, hexJoin([][]byte{a, b})))
+	emit(fmt.Sprintf("op alpha add %s 0 %s", cs, hexJoin([][]byte{a, cc})))
+	emit(fmt.Sprintf("op alpha add %s 1 %s", cs, hexJoin([][]byte{d, a})))
+	rep0 := 2 + g.rng.IntN(2)
+	emit(fmt.Sprintf("op alpha commit %s b:%02x02", cs, rep0))
+	emit(fmt.Sprintf("op - nodes %s 0", cs))
+	row1 := tok("ok", a) + "," + tok("ok", d)
+	fill := ""
+	if rep0 == 3 {
+		fill = "," + tok("ok", b)
+	}
+	rows := []string{
+		tok("ok", a) + "," + tok("ok", a) + fill,                       // the same signature twice
+		tok("ok", a) + "," + tok("mal", a) + fill,                      // a signature and its (r, n-s) twin
+		tok("ok", a) + "," + tok("ok2", a) + fill,                      // two different valid signatures of the one node
+		tok("ok2", a) + fill + "," + tok("mal", a),                     // ... in another order
+		tok("ok", a) + "," + tok("ok", cc) + fill,                      // the node and another member: legal
+		tok("ok", a) + "," + tok("ok", a) + "," + tok("ok", cc) + fill, // the repetition is ignored, the third signer counts
+	}
+	g.rng.Shuffle(len(rows), func(x, y int) { rows[x], rows[y] = rows[y], rows[x] })
+	for i, r := range rows {
+		g.msgN++
+		msg := sha256.Sum256([]byte(fmt.Sprintf("rk-msg-%d-%d", g.w.run.Seed, g.msgN)))
+		if i%2 == 0 {
+			emit(fmt.Sprintf("op - verify %s %s %s sigs=%s/%s", cs, hx.Hex(msg[:8]), g.badAttr(), r, row1))
+		} else {
+			oid := sha256.Sum256([]byte(fmt.Sprintf("rk-oid-%d", g.msgN)))
+			emit(fmt.Sprintf("op - submit kind=map cid=%s oid=%x net=42 magic=42 size=1 del=- lock=- vubd=1 %s sigs=%s/%s",
+				cs, oid, g.badAttr(), r, row1))
+		}
+	}
+	// the same key twice in vector 1 as well: [ok.A, ok2.A] against [D, A] must fail for REP 2
+	g.msgN++
+	msg := sha256.Sum256([]byte(fmt.Sprintf("rk-msg-%d-%d", g.w.run.Seed, g.msgN)))
+	emit(fmt.Sprintf("op - verify %s %s %s sigs=%s/%s", cs, hx.Hex(msg[:8]), g.badAttr(), tok("ok", a)+","+tok("ok", cc)+fill, tok("ok", a)+","+tok("ok2", a)))
 }
 
 func (g *gen) next() string {
@@ -1511,7 +1659,10 @@ func TestRun(t *testing.T) {
 			g.cids = [][]byte{c, w.meta[1-g.rng.IntN(2)], x2[:]}
 			budget = 12
 		case "signatures":
-			for _, c := range g.cids[:2+g.rng.IntN(2)] {
+			// first a roster with a repeated key on one of the meta-on-chain containers, then random rosters on the others
+			rk := g.rng.IntN(2)
+			g.repeatedKeyScript(w.meta[rk], emit)
+			for _, c := range [][]byte{w.meta[1-rk], g.cids[2], g.cids[3]}[:1+g.rng.IntN(3)] {
 				nv := 1 + g.rng.IntN(4)
 				sizes := make([]int, nv)
 				for i := range sizes {
